@@ -159,10 +159,11 @@ func init() {
 				tweak: func(f *Family) {
 					// failing services are where error texts (which may embed swap data) are sent to the peer
 					ch := f.Cfg.Chain
-					f.Cfg.Flags.Faults = []string{ch + ".createopening", ch + ".spend", "ln.invoice", ch + ".getblockcount"}
+					f.Cfg.Flags.Faults = []string{ch + ".createopening", ch + ".spend", "ln.invoice", ch + ".getblockcount", "msg.send"}
 				}})
 		},
 		Oracles:      []scn.Oracle{oracleC23},
+		Extra:        c23Resend,
 		NeedOutcomes: []string{"State_ClaimedPreimage", "State_ClaimedCoop"},
 	})
 }
